@@ -153,7 +153,7 @@ def _param_specs(prog: dict) -> List[Tuple[str, str, Any]]:
             else:
                 out.append((f"tab{i}", "param", (V, h)))
         elif op == "param":
-            out.append((f"p{i}", "param", (h,)))
+            out.append((f"p{i}", "buffer" if s.get("buffer") else "param", (h,)))
         elif op == "ew":
             if s["fn"] == "layer_norm":
                 out.append((f"lnw{i}", "param", (h,)))
@@ -296,7 +296,9 @@ def render(prog: dict) -> str:
     name = "Prog_" + prog_id(prog)
     lines = [f"class {name}(nn.Module):", "    def __init__(self):", "        super().__init__()"]
     for attr, kind, spec in _param_specs(prog):
-        if kind == "param":
+        if kind == "buffer":
+            lines.append(f"        self.register_buffer({attr!r}, torch.randn({tuple(spec)!r}))")
+        elif kind == "param":
             scale = 1.0 if len(spec) == 1 else 1.0 / math.sqrt(spec[-1] if len(spec) == 2 else spec[1] * spec[2])
             lines.append(f"        self.{attr} = nn.Parameter(torch.randn({tuple(spec)!r}) * {scale!r})")
         elif spec[0] == "Linear":
@@ -339,6 +341,11 @@ def build_module(prog: dict, seed: int = 0) -> nn.Module:
     m = cls()
     m._verif_source = src
     return m
+
+
+def named_tensors(module: nn.Module) -> Dict[str, torch.Tensor]:
+    """parameters and buffers by name (what the reference interpreter reads)"""
+    return {**dict(module.named_parameters()), **dict(module.named_buffers())}
 
 
 def make_inputs(prog: dict, seed: int, dtype=torch.float32) -> Dict[str, torch.Tensor]:
@@ -757,6 +764,20 @@ class _Builder:
         a, b = (x, br) if order == "skip+branch" else (br, x)
         return self.emit(op="add", a=a, b=b, spell=spell)
 
+    def tower(self, x: str, kinds: List[str]) -> str:
+        """a second, independent tower computed from the input x2 (with its own residual block), joined by a plain add:
+        residual blocks that do not feed one another"""
+        d = self.draw
+        self.uses_x2 = True
+        t = "x2"
+        if d(st.booleans()):
+            t = self.unary(t, kinds)
+        t = self.residual(t, kinds, 0)
+        if d(st.booleans()):
+            t = self.unary(t, kinds)
+        a, b = (x, t) if d(st.booleans()) else (t, x)
+        return self.emit(op="add", a=a, b=b, spell=d(st.sampled_from(["plus", "torch.add"])))
+
     def plain_add(self, x: str, kinds: List[str]) -> str:
         """an addition whose operands are not computed from one another"""
         d = self.draw
@@ -769,7 +790,7 @@ class _Builder:
             b = self.unary(x, kinds)
         elif how == "param":
             a = x
-            b = self.emit(op="param", i=self.idx())
+            b = self.emit(op="param", i=self.idx(), buffer=d(st.integers(0, 3)) == 0)
             if spell == "iadd":
                 spell = "plus"
         else:  # second input
@@ -817,13 +838,18 @@ def unit_programs(draw, max_ops=16):
         cur = b.emit(op="add", a=t, b=p, spell=draw(st.sampled_from(["plus", "torch.add"])))
     n_blocks = draw(st.integers(0, 4))
     n_steps = draw(st.integers(1, 6))
-    plan = ["res"] * n_blocks + [draw(st.sampled_from(["op", "op", "plain_add"])) for _ in range(n_steps)]
+    plan = ["res"] * n_blocks + [draw(st.sampled_from(["op", "op", "plain_add"])) for _ in range(n_steps)] + \
+        (["tower"] if draw(st.integers(0, 2)) == 0 else [])
     plan = draw(st.permutations(plan))
     for step in plan:
         if len(b.stmts) >= max_ops:
             break
         if step == "res":
             cur = b.residual(cur, KINDS_UNIT, depth=draw(st.sampled_from([0, 0, 1])))
+        elif step == "tower":
+            if b.uses_x2:
+                continue
+            cur = b.tower(cur, KINDS_UNIT)
         elif step == "op":
             cur = b.unary(cur, KINDS_UNIT)
         else:
@@ -869,6 +895,35 @@ def quant_programs(draw, max_ops=12):
     inputs = ["x"] + (["x2"] if b.uses_x2 else [])
     ret = dict(kind="dot", var=cur)
     return dict(h=h, B=B, S=S, V=V, inputs=inputs, stmts=b.stmts, ret=ret)
+
+
+def grad_fanout(prog: dict) -> int:
+    """largest number of gradient contributions any tensor receives (differentiable uses of one variable).
+    With >= 3 contributions the order in which autograd accumulates them matters in floating point."""
+    uses: Dict[str, int] = {}
+
+    def use(v, k=1):
+        uses[v] = uses.get(v, 0) + k
+    for s in prog["stmts"]:
+        op = s["op"]
+        if op == "sdpa":
+            for v in (s["q"], s["k"], s["v"]):
+                use(v)
+        elif op == "intop":
+            use(s["x"], 3 if s["kind"] == "gt_where" else 1)
+        elif op == "shape" and s["kind"] in ("stack_sum", "rotate_half", "slice_cat"):
+            use(s["x"], 2)
+        elif op == "detach":
+            use(s["x"], 1 if s.get("keep_grad") else 0)
+        elif op == "argmax":
+            pass
+        else:
+            for v in stmt_inputs(s):
+                use(v)
+    r = prog["ret"]
+    for v in ([r["var"]] if "var" in r else r.get("vars", [])):
+        use(v)
+    return max(uses.values(), default=0)
 
 
 def stats(prog: dict) -> Dict[str, int]:
